@@ -13,8 +13,8 @@ EXT_FOR = {"file": ["ntfs-ext", "pdf-ext", "raster-image-ext", "archive-ext", "w
            "network-traffic": ["http-request-ext", "icmp-ext", "socket-ext", "tcp-ext"], "process": ["windows-process-ext", "windows-service-ext"],
            "user-account": ["unix-account-ext"]}
 GENERIC_SAMPLE = {"SDO": "malware", "SCO": "file", "SRO": "relationship"}
-SKIP_TYPES = {"objects:language-content", "objects:extension-definition", "markings:statement", "markings:tlp"}
-SKIP_20 = {"observables:network-traffic"}      # needs container-local references: exercised through observed-data only
+SKIP_TYPES = {"markings:statement", "markings:tlp"}
+SKIP_20 = set()      # (2.0 network-traffic needs container-local references: generated without them, it is refused on its own for that reason unless the entry supplies them)
 
 
 class Gen(object):
@@ -173,6 +173,13 @@ class Gen(object):
         if key == "objects:indicator" and self.v == "2.1":
             out["pattern_type"] = "stix"
             out.pop("pattern_version", None)
+        if key == "objects:extension-definition" and "extension_properties" in out:
+            # new top-level property names are declared by extensions that add top-level properties: the generated instance says so (valid whether or not that is a MUST)
+            types = list(out.get("extension_types") or [])
+            if "toplevel-property-extension" not in types:
+                out["extension_types"] = types + ["toplevel-property-extension"]
+            out["extension_properties"] = [p if isinstance(p, str) and len(p) >= 3 and p.replace("_", "a").isalnum() and p.islower() else "prop_%d" % i
+                                           for i, p in enumerate(out["extension_properties"])]
         if key == "objects:marking-definition":
             out["definition_type"] = "statement"
             out["definition"] = {"statement": "x"}
